@@ -489,6 +489,7 @@ Proof.
   - (* remove *) eapply Rel_fresh; eassumption.
   - (* mapcar *) eapply Rel_fresh; eassumption.
   - (* remove-if *) eapply Rel_fresh; eassumption.
+  - (* remove-duplicates *) eapply Rel_fresh; eassumption.
 Qed.
 
 (* ---------- histories ---------- *)
